@@ -12,6 +12,8 @@ MCFamily ==
       [] IOEnv.MC_FAMILY = "degen" -> DegenGames
       [] IOEnv.MC_FAMILY = "forced" -> RandomSubset(K, ForcedGames)
       [] IOEnv.MC_FAMILY = "gap5" -> Gap5Games
+      [] IOEnv.MC_FAMILY = "order3" -> RandomSubset(K, Order3Games)
+      [] IOEnv.MC_FAMILY = "jump1" -> RandomSubset(K, Jump1Games)
       [] IOEnv.MC_FAMILY = "minreachrank" -> MinReachRankGames
       [] IOEnv.MC_FAMILY = "finaldeadend" -> RandomSubset(K, FinalDeadEndGames)
       [] IOEnv.MC_FAMILY = "rand" -> (LET q == RandFamily IN {q[i].g : i \in DOMAIN q})
